@@ -22,14 +22,14 @@ import (
 var c20Tokens = []string{
 	"a", "b.c", "9x", "{", "}", "\n", `"q r"`, `"un`, "\\\n", "# c",
 	"$(m)", "$(m) =", "$(u)", "x$(m)y", "(s)", "import s", "import nofile", "{env:V}",
-	`""`, `"\""`,
+	`""`, `"\""`, "\"x\\\ny\"",
 }
 
 // line-level atoms, each followed by a newline
 var c20Lines = []string{
 	"a b", "a {", "}", "b.c x {", "(s) {", "(t) {", "import s", "import t",
 	"$(m) = v", "$(m) = $(u)", "$(m) = v w", "a $(m)", "a x$(m)y", "a \\", "c { }",
-	"a \"}\"",
+	"a \"}\"", "a \"x\\\ny\"",
 }
 
 type c20Case struct {
@@ -279,7 +279,7 @@ func TestVerifC20(t *testing.T) {
 	scratch, _ := os.MkdirTemp("", "verif-c20-")
 	defer os.RemoveAll(scratch)
 	c20Loc = filepath.Join(scratch, "x.conf")
-	r.Rule("every sequence of <= T atoms over 20 token-level atoms and of <= L atoms over 16 line-level atoms (braces, quotes, escapes, continuations, comments, macro definitions/uses incl. undefined and empty, snippets with self and mutual imports, env placeholders), nesting ladders around the limit, and every single-byte deletion/duplication of the two shipped configuration files; each is parsed by the real parser.Read under a panic/time/memory watchdog; oracle: returns; on success no Macro/Snippet/import node, no $(..) reference, valid names, depth bounded; print->parse round trip when expressible. Non-trivial: distinct shapes of successfully parsed non-empty trees")
+	r.Rule("every sequence of <= T atoms over 21 token-level atoms and of <= L atoms over 17 line-level atoms (braces, quotes, escapes, an escaped line break inside quotes, continuations, comments, macro definitions/uses incl. undefined and empty, snippets with self and mutual imports, env placeholders), nesting ladders around the limit, and every single-byte deletion/duplication of the two shipped configuration files; each is parsed by the real parser.Read under a panic/time/memory watchdog; oracle: returns; on success no Macro/Snippet/import node, no $(..) reference, valid names, depth bounded; print->parse round trip when expressible. Non-trivial: distinct shapes of successfully parsed non-empty trees")
 	r.Assume("environment of the parsing process contains only V=val; file imports resolve in an empty directory")
 	r.StartWatchdog(20*time.Second, 1<<30, func(desc any, why string) {
 		cs, _ := desc.(c20Case)
